@@ -2,15 +2,72 @@
 from props.pipe_common import *
 PROPS_FILE = "Props_C01.v"
 RULE = ("random histories of UPDATEs (announce / withdraw / both for one prefix in one UPDATE / unparsable) from several BMP peers on 1-2 routers and "
-        "BGP sessions over a pool of 6 prefixes and 5 attribute sets, queried for random prefixes in between and for all at the end; "
+        "BGP sessions over a pool of 6 prefixes and 5 attribute sets, queried for random prefixes in between and for all at the end; in two cases of "
+        "three also UPDATE octets from C04's proved encoder handed to BMP peers / BGP sessions (IPv4/IPv6 unicast/multicast over a pool of 10 "
+        "prefixes shared with the abstract ops, MP_REACH / MP_UNREACH / conventional fields, End-of-RIB forms, unknown AFI/SAFIs) and malformed "
+        "variants (an MP attribute whose last NLRI is spoilt behind a good one; C04's mutations), every pool prefix queried; plus MRT update files "
+        "through C16's engine (a prefix withdrawn and announced by one UPDATE in a third of the UPDATEs); "
         "non-trivial = some query shows two or more sources or a withdrawn entry")
 
 
 def gen(rng, tier):
     n = 2500 if tier == "quick" else 40000
+    # two cases in three also carry UPDATEs from the wire: octets from C04's proved encoder (all four families,
+    # MP_REACH / MP_UNREACH / conventional, End-of-RIB forms, unknown AFI/SAFIs) and malformed variants of them
+    wire = [i % 3 != 0 for i in range(n)]
+    plans = [pipegen.raw_plan(rng.fork("raw%d" % i)) if wire[i] else [] for i in range(n)]
+    hexes = pipegen.encode_plans(V, rng.fork("enc"), plans)
     for i in range(n):
         yield pipegen.gen_case(rng, peers=pipegen.DISTINCT_PEERS, flaps=(i % 4 == 0), reup=False, metrics=False, bgp=True,
-                               length=(8, 50 if tier == "quick" else 150), queries=(3, 8))
+                               length=(8, 50 if tier == "quick" else 150), queries=(3, 8), raw=hexes[i] or None)
+
+
+# ---- the third ingest path: MRT update files. C16 owns the model of the unit (Mrt/*) and its engine `c16`; C01 drives
+# that engine with ITS histories: per-peer streams of UPDATEs over few prefixes, a prefix often withdrawn and announced
+# by one UPDATE (RFC 4271 4.3: ends announced), every prefix queried. No dump files, no state changes: those are C16's.
+MRT_PEERS = [0, 2, 3, 5]     # pairwise different address and AS (harness/src/engines/c16.rs POOL)
+
+
+def gen_mrt(rng, tier):
+    n = 250 if tier == "quick" else 4000
+    for _ in range(n):
+        ops = []
+        for _f in range(rng.range(1, 3)):
+            ops.append("F " + rng.choice("pgb"))
+            for _m in range(rng.range(1, 7)):
+                p = rng.choice(MRT_PEERS)
+                v = rng.weighted([(4, 60), (14, 15), (2, 15), (12, 10)])
+                if v % 10 == 2 and p == 5:
+                    v += 2                                    # a four-octet AS does not fit an AS2 record
+                af = rng.weighted([(0, 75), (1, 25)])
+                ps = sorted({rng.below(4) for _ in range(rng.weighted([(0, 15), (1, 45), (2, 30), (3, 10)]))})
+                ws = sorted({rng.below(4) for _ in range(rng.weighted([(0, 35), (1, 40), (2, 25)]))})
+                if ps and rng.chance(35):
+                    ws = sorted(set(ws) | {rng.choice(ps)})   # the overlap
+                ops.append("M %d %d %d %d %s %d %s" % (v, p, af, rng.below(10), ",".join(map(str, ps)) or "-", af, ",".join(map(str, ws)) or "-"))
+            if rng.chance(40):
+                ops.append("Q %d %d" % (rng.below(2), rng.below(4)))
+        ops += ["Q %d %d" % (af, x) for af in (0, 1) for x in range(4)]
+        yield ";".join(ops)
+
+
+def nontrivial_mrt(case, out):
+    return any(t.startswith("q:p") for t in out.split())
+
+
+def classify_mrt(case, out):
+    ks = {"mrt-update-file"}
+    for o in case.split(";"):
+        t = o.split()
+        if t and t[0] == "M" and t[5] != "-" and t[7] != "-" and set(t[5].split(",")) & set(t[7].split(",")):
+            ks.add("prefix-withdrawn-and-announced-in-one-update")
+    if any(t.startswith("q:") and "=W" in t for t in out.split()):
+        ks.add("query-shows-withdrawn")
+    return sorted(ks)
+
+
+def corpus_mrt():
+    return ["F p;M 4 0 0 3 1,2 0 -;M 4 0 0 4 1 0 1,2;M 4 2 1 5 1 1 -;Q 0 1;Q 0 2;Q 1 1"]
 
 
 def nontrivial(case, out):
@@ -26,7 +83,8 @@ def corpus():
     ]
 
 
-ENGINES = [{"name": "pipe", "gen": gen, "corpus": corpus, "nontrivial": nontrivial, "classify": pipegen.classify, "shards": 12}]
+ENGINES = [{"name": "pipe", "gen": gen, "corpus": corpus, "nontrivial": nontrivial, "classify": pipegen.classify, "shards": 12},
+           {"name": "c16", "gen": gen_mrt, "corpus": corpus_mrt, "nontrivial": nontrivial_mrt, "classify": classify_mrt, "shards": 8, "timeout": 1500}]
 from props.e2e_common import e2e_engine
 ENGINES.append(e2e_engine("C01"))   # the same histories against a real pipeline over TCP/HTTP
 known_signature = known_signature_for(set())
@@ -34,7 +92,8 @@ LEVEL_TEXT = ("Theorem over all update histories of the RIB model: what a query 
               "that prefix (exact characterisation including the sticky session-wide withdrawal), one entry per source, overlap ends announced, an "
               "unparsable UPDATE changes nothing, frame. Kernel-checked, axiom-free; tied to the real state machine + RIB unit + store by generated "
               "histories of real BMP/BGP bytes whose RIB answers are compared with the model and with the property's own reading (an ideal RIB keyed "
-              "by wire identity).")
+              "by wire identity). UPDATEs taken from the wire are interpreted by C04's decoder inside the pipeline model (injective numbering of wire "
+              "prefixes, one payload per route event, an UPDATE that does not decode is a no-op), all four families.")
 DESIGN_REF = "DESIGN.md section 6, C01"
 LEVEL_NOTE = ("Trusted: Coq kernel, extraction + OCaml driver, Rust harness. The end-to-end statement (wire identity level) is proved on the pipeline model "
               "(Pipe/PipeCompose.v, C01_pipeline_refines_ideal / C01_pipeline_rib_answer: every history below the u32 id counter with BMP router keys below "
